@@ -1,9 +1,11 @@
 (* C08 — every live active object owns a distinct gradient slot, in any order.
    This file holds only the property theorems; each is closed by [exact] of a lemma of
    GapListProofs.v and followed by Print Assumptions.
-   Model: GapList.v (tie H: correspondence run of ./check C08 against adept::Stack). *)
+   Model: GapList.v (tie H: correspondence run of ./check C08 against adept::Stack; tie G for the register paths
+   and the top-of-stack unregister paths: Gen_Gaplist.v, translated from Stack.h / Stack.cpp on every run). *)
 From Coq Require Import ZArith List.
-From Adept Require Import GapList GapListProofs.
+From Adept Require Import GapList GapListProofs GapListGen.
+From AdeptGen Require Import Gen_Gaplist.
 Import ListNotations.
 Local Open Scope Z_scope.
 
@@ -52,4 +54,42 @@ Example C08_example :
   let ops := [ORegN 3; OReg1; ORegN 2; OUnreg 1; ORegN 2; OUnreg 1; OReg1; ONewRec; OUnreg 2] in
   snd (run ops) = [(3,1); (6,2)] /\ gaps (fst (run ops)) = [(0,2);(4,5)] /\
   ig (fst (run ops)) = 8 /\ mg (fst (run ops)) = 9.
+Proof. vm_compute. repeat split. Qed.
+
+(* Tie G.  The register paths (register_gradient, do_register_gradients) and the top-of-stack branch of
+   unregister_gradient / unregister_gradients, re-assembled from the arithmetic, comparisons and field updates
+   read from the current source, are the hand model's functions - for every state and argument, not only for
+   reachable ones.  An edit of any of those expressions (a comparison turned, a gap shrunk by the wrong amount,
+   the count adjusted wrongly, the wrong end of the gap returned) changes Gen_Gaplist.v and breaks this. *)
+Theorem C08_generated_register_and_top_paths : forall s idx n,
+  gen_register1 s = register1 s /\
+  gen_registerN s n = registerN s n /\
+  gen_unregister1_top s idx = model_unregister_top s idx 1 /\
+  gen_unregisterN_top n s idx = model_unregister_top s idx n.
+Proof.
+  intros s idx n.
+  exact (conj (gen_register1_eq s) (conj (gen_registerN_eq s n)
+        (conj (gen_unregister1_top_eq s idx) (gen_unregisterN_top_eq s idx n)))).
+Qed.
+Print Assumptions C08_generated_register_and_top_paths.
+
+(* ... hence a block handed out by the code read from the source was not live, in every reachable state *)
+Theorem C08_generated_recycle_fresh : forall ops n, 1 <= n -> forall i b p,
+  snd (gen_registerN (fst (run ops)) n) <= i < snd (gen_registerN (fst (run ops)) n) + n ->
+  nth_error (snd (run ops)) p = Some b -> ~ in_block i b.
+Proof.
+  intros ops n Hn i b p. rewrite gen_registerN_eq.
+  exact (register_fresh _ _ n (run_inv ops) Hn i b p eq_refl).
+Qed.
+Print Assumptions C08_generated_recycle_fresh.
+
+(* non-vacuity: the generated paths on a state with two gaps - shrink of the first gap, exact fit, no fit,
+   top-of-stack release that swallows the last gap *)
+Example C08_example_generated :
+  let s := mk 8 9 3 [(0,2);(6,7)] (Some 1%nat) in
+  gen_registerN s 2 = (mk 8 9 5 [(2,2);(6,7)] (Some 1%nat), 0) /\
+  gen_registerN s 3 = (mk 8 9 6 [(6,7)] (Some 0%nat), 0) /\
+  gen_registerN s 4 = (mk 12 12 7 [(0,2);(6,7)] (Some 1%nat), 8) /\
+  gen_unregister1_top (mk 9 9 3 [(0,2);(6,7)] (Some 1%nat)) 8 = Some (mk 6 9 2 [(0,2)] None) /\
+  gen_unregister1_top s 3 = None.
 Proof. vm_compute. repeat split. Qed.
